@@ -2,8 +2,7 @@
 Helper lemmas for C20 (1/3): registers, heap reads, the `handed` relation, and the effect of every
 single statement of the schedule on a state that satisfies the invariant `Good`.
 -/
-import Mathlib.Tactic
-import PybropsModel.Model.Program
+import PybropsModel.Lemmas.ProgramHeap
 set_option autoImplicit false
 set_option linter.unusedSectionVars false
 
@@ -81,39 +80,56 @@ theorem setReg_pred (P : Ref → Prop) (regs : Reg → Option Ref) (x : Reg) (v 
   · rw [setReg_other _ _ _ _ e] at h; exact hr r a h
 
 theorem five_nodup : five.Nodup := by decide
-theorem mcfg_five_nodup : (Reg.mcfg :: five).Nodup := by decide
-theorem misc_not_five : Reg.misc ∉ five := by decide
-theorem mcfg_not_five : Reg.mcfg ∉ five := by decide
 theorem five_length : five.length = 5 := rfl
+
+theorem resolve_map (regs : Reg → Option Ref) :
+    ∀ (rs : List Reg) (as : List Ref), resolve regs rs = some as → rs.map regs = as.map some
+  | [], as, h => by simp [resolve] at h; subst h; rfl
+  | r :: rs, as, h => by
+    simp only [resolve] at h
+    cases h1 : regs r with
+    | none => simp [h1] at h
+    | some a0 =>
+      cases h2 : resolve regs rs with
+      | none => simp [h1, h2] at h
+      | some as0 =>
+        simp only [h1, h2, Option.some.injEq] at h
+        subst h
+        simp [h1, resolve_map regs rs as0 h2]
+
+theorem map_some_inj {α : Type} : ∀ (a b : List α), a.map some = b.map some → a = b
+  | [], [], _ => rfl
+  | [], _ :: _, h => by simp at h
+  | _ :: _, [], h => by simp at h
+  | x :: a, y :: b, h => by
+    simp only [List.map_cons, List.cons.injEq, Option.some.injEq] at h
+    rw [h.1, map_some_inj a b h.2]
 
 /-! ### heap reads -/
 section heap
 variable {V : Type}
 
-theorem vals_length (h : Heap V) (rs : List Ref) : (vals h rs).length = rs.length := by simp [vals]
-
-theorem vals_append (h : Heap V) (a b : List Ref) : vals h (a ++ b) = vals h a ++ vals h b := by
+theorem vals_length (k : Nat) (h : Heap (Cell V)) (rs : List Ref) : (vals k h rs).length = rs.length := by
   simp [vals]
 
-theorem vals_congr (h h' : Heap V) (rs : List Ref) (hh : ∀ a ∈ rs, h'[a]? = h[a]?) :
-    vals h' rs = vals h rs := by
+theorem vals_append (k : Nat) (h : Heap (Cell V)) (a b : List Ref) :
+    vals k h (a ++ b) = vals k h a ++ vals k h b := by
+  simp [vals]
+
+theorem vals_congr (k : Nat) (h h' : Heap (Cell V)) (rs : List Ref)
+    (hh : ∀ a ∈ rs, viewO k h' a = viewO k h a) : vals k h' rs = vals k h rs := by
   unfold vals
   exact List.map_congr_left hh
 
-theorem vals_grow (h : Heap V) (ext : List V) (rs : List Ref) (hv : ∀ a ∈ rs, a < h.length) :
-    vals (h ++ ext) rs = vals h rs := by
-  apply vals_congr
-  intro a ha
-  exact List.getElem?_append_left (hv a ha)
-
-theorem startVals_map_some (h : Heap V) (S : List Ref) : startVals h (S.map some) = vals h S := by
+theorem startVals_map_some (k : Nat) (h : Heap (Cell V)) (S : List Ref) :
+    startVals k h (S.map some) = vals k h S := by
   simp [startVals, vals, Function.comp_def]
 
-theorem vals_all_some (h : Heap V) (rs : List Ref) (hv : ∀ a ∈ rs, a < h.length) :
-    (vals h rs).all Option.isSome = true := by
+theorem vals_all_some (k : Nat) (h : Heap (Cell V)) (rs : List Ref) (hv : ∀ a ∈ rs, a < h.length) :
+    (vals k h rs).all Option.isSome = true := by
   simp only [vals, List.all_map, List.all_eq_true, Function.comp]
   intro a ha
-  simp [List.getElem?_eq_getElem (hv a ha)]
+  exact viewO_isSome (hv a ha)
 
 end heap
 
